@@ -387,7 +387,8 @@ def wait_obligation():
     open(path, "w").write("From Coq Require Import String List Bool.\nFrom GV Require Import Race.Checker.\nFrom GVgen Require Import Gen_Locks.\nImport ListNotations.\n"
                           "Definition BW := Eval vm_compute in map (fun c => (cs_caller c, cs_callee c, cs_held c)) (bad_waits gen_poolcalls).\nPrint BW.\n"
                           "Definition BA := Eval vm_compute in map (fun q => (q_fn q, q_lock q, q_held q)) (bad_acqs gen_poolcalls gen_poolacqs).\nPrint BA.\n"
-                          "Definition NE := Eval vm_compute in wait_table_nonempty gen_poolcalls.\nPrint NE.\n")
+                          "Definition NE := Eval vm_compute in wait_table_nonempty gen_poolcalls.\nPrint NE.\n"
+                          "Definition LK := Eval vm_compute in map (fun l => (fst (fst l), snd (fst l), [snd (fst l)])) gen_lockleaks.\nPrint LK.\n")
     ok, out, err = coqc(os.path.join("gen", "cases_poolwait.v"))
     if not ok:
         raise HarnessError("coqc failed on the pool wait-discipline file: " + (out + err)[-2000:])
@@ -396,8 +397,9 @@ def wait_obligation():
     triples = lambda txt: [tuple(re.findall(r'"([^"]*)"', t)) for t in re.findall(r"\(([^()]*\[[^\]]*\])\)", txt)]
     bw, ba = triples(grp("BW")), triples(grp("BA"))
     ne = "true" in grp("NE")
+    lk = triples(grp("LK"))
     ok2, out2, err2 = coqc(os.path.join("obligations", "GenWaitOk.v"))
-    return bw, ba, ne, ok2
+    return bw, ba + [(t[0], "LEAKED: " + t[1]) for t in lk], ne, ok2
 
 
 def wait_report(run, pid, found_concrete):
@@ -408,7 +410,7 @@ def wait_report(run, pid, found_concrete):
         if bw:
             what.append("a function that may wait for an instance or for the rules is called with a mutex of the pool held: %s" % "; ".join("%s -> %s holding %s" % (t[0], t[1], list(t[2:])) for t in bw[:4]))
         if ba:
-            what.append("a mutex is acquired out of order or inside a read section: %s" % "; ".join("%s takes %s holding %s" % (t[0], t[1], list(t[2:])) for t in ba[:4]))
+            what.append("a mutex is acquired out of order or inside a read section, or still held at a return: %s" % "; ".join("%s takes %s holding %s" % (t[0], t[1], list(t[2:])) for t in ba[:4]))
         if not ne:
             what.append("the call table no longer mentions getGengine / the engine's Execute*")
         run.report({"kind": "obligation", "symptom": "wait-discipline", "calls": [list(t) for t in bw[:6]], "acquisitions": [list(t) for t in ba[:6]]},
